@@ -1,7 +1,6 @@
 (* The lossy reader: totality, and its result on rendered well-formed documents. *)
 From V.model Require Import Base Deb822Lex Deb822Parse Grammar Lossy.
 From V.proofs Require Import BaseP Deb822LexP GrammarLexP GrammarParseP GrammarAccP.
-Set Default Timeout 60.
 
 (* ---------- what remains is a suffix of what was given ---------- *)
 Definition suffix (r ts : list token) : Prop := exists p, ts = p ++ r.
